@@ -31,7 +31,7 @@ def shards(tier, seed):
     if tier == "quick":
         n_sh, n, budget, ncuda, nmax = 8, 40, 50, 5, 8000
     else:
-        n_sh, n, budget, ncuda, nmax = 14, 350, 480, 60, 20000
+        n_sh, n, budget, ncuda, nmax = 14, 3000, 480, 60, 20000
     out = [{"name": f"dt{i}", "threads": 2, "timeout": budget * 4 + 300,
             "params": {"seed": seed, "shard": i, "n": n, "budget_s": budget, "nmax": nmax,
                        "backends": ["numba", "numpy"]}} for i in range(n_sh)]
